@@ -420,4 +420,9 @@ class _Sub(object):
         return self._ctx.undecided(self._rule, *a, **k)
 
 
-RULES = [("C02.R1", r1), ("C02.R2", r2), ("C02.R3", r3), ("C02.R4", r4), ("C02.R5", r5)]
+def r_idioms(ctx):
+    from .common import repo_idioms
+    repo_idioms(ctx, "C02.R6", ('connection', 'crypto', 'context'))
+
+
+RULES = [("C02.R1", r1), ("C02.R2", r2), ("C02.R3", r3), ("C02.R4", r4), ("C02.R5", r5), ("C02.R6", r_idioms)]
